@@ -394,3 +394,140 @@ def containers(x, acc=None):
         for v in vars(x).values():
             containers(v, acc)
     return acc
+
+
+# ---------------------------------------------------------------------- typed values
+ANY_VALUES = [None, True, 3, 2.5, "s", [1, "x"], {"k": 1}]
+
+
+class Val:
+    """typed values of a spec with symbolic leaves (DESIGN.md 3.2): Optional / Union /
+    enum member / Undefined / lengths / presence of defaulted arguments by forks"""
+
+    def __init__(self, ctx: Ctx, prog: Program, bounds: Bounds, respect_constraints=False):
+        self.ctx = ctx
+        self.prog = prog
+        self.b = bounds
+        self.defs = named(prog.spec)
+        self.respect = respect_constraints
+        self.hashed = 0
+
+    def val(self, s: Sp, depth: int = None, cs: tuple = ()):
+        from apischema import Undefined
+
+        c = self.ctx
+        if depth is None:
+            depth = self.b.depth
+        k = s.k
+        if k == "ref":
+            return self.val(self.defs[s.opt("name")], depth, cs)
+        if k == "ann":
+            return self.val(s.a[0], depth, tuple(s.opt("c")) + cs)
+        if k == "newtype":
+            return self.val(s.a[0], depth, tuple(s.opt("schema") or ()) + cs)
+        if k == "int":
+            v = c.int("i")
+            self.constrain(cs, v, "num")
+            return v
+        if k == "float":
+            v = c.float("f")
+            if self.hashed and v != v:
+                raise Assume("NaN in a set")
+            self.constrain(cs, v, "num")
+            return v
+        if k == "str":
+            v = c.str("s", self.b.strlen)
+            self.constrain(cs, v, "str")
+            return v
+        if k == "bool":
+            return c.bool("b")
+        if k == "none":
+            return None
+        if k == "any":
+            return c.pick(ANY_VALUES, "any")
+        if k == "opt":
+            if depth <= 0 or c.flag("none"):
+                return None
+            return self.val(s.a[0], depth, cs)
+        if k == "undef":
+            if c.flag("undef"):
+                return Undefined
+            return self.val(s.a[0], depth, cs)
+        if k == "union":
+            return self.val(c.pick(list(s.a), "alt"), depth, cs)
+        if k in ("list", "seq", "set", "fset", "vtuple"):
+            n = 0 if depth <= 0 else c.choice(self.b.width + 1, "len")
+            self.hashed += k in ("set", "fset")
+            try:
+                items = [self.val(s.a[0], depth - 1) for _ in range(n)]
+            finally:
+                self.hashed -= k in ("set", "fset")
+            self.constrain(cs, items, "arr")
+            if k in ("list", "seq"):
+                return items
+            if k == "set":
+                return set(items)
+            if k == "fset":
+                return frozenset(items)
+            return tuple(items)
+        if k == "tuple":
+            items = tuple(self.val(a, depth - 1) for a in s.a)
+            self.constrain(cs, items, "arr")
+            return items
+        if k == "map":
+            out = {}
+            if depth > 0:
+                for key in self.map_keys(s.a[0]):
+                    if c.flag("has"):
+                        out[key] = self.val(s.a[1], depth - 1)
+            self.constrain(cs, out, "obj")
+            return out
+        if k == "lit":
+            return c.pick(list(s.a), "lit")
+        if k == "enum":
+            cls = self.prog.cls(s.opt("name"))
+            return getattr(cls, "m%d" % c.choice(len(s.a), "enum"))
+        if k == "obj":
+            return self.obj(s, depth, cs)
+        raise ValueError(k)
+
+    def map_keys(self, ks: Sp):
+        g = Gen.__new__(Gen)
+        g.b = self.b
+        keys = g.map_keys(ks)
+        return [x for x in keys if x != "zz"]
+
+    def constrain(self, cs, v, fam):
+        if not self.respect or not cs:
+            return
+        from vf.oracle.deser import check_constraints
+
+        errs: list = []
+        check_constraints(cs, v, fam, (), errs)
+        if errs:
+            raise Assume("value violates the schema constraints of its type")
+
+    def obj(self, s: Sp, depth: int, cs):
+        c = self.ctx
+        kind = s.opt("kind")
+        vals = {}
+        for f in s.a:
+            if kind == "dataclass" and not f.init and not f.initvar:
+                continue
+            if kind == "typeddict":
+                if not is_required(s, f) and not c.flag("has"):
+                    continue
+            elif f.has_default and not (depth > 0 and c.flag("given")):
+                continue
+            fsp = f.sp
+            if isinstance(f.properties, str):
+                sub = self.val(fsp, depth - 1, tuple(f.schema))
+                vals[f.name] = {MATCHING[f.properties]: x for x in list(sub.values())[:1]}
+                continue
+            vals[f.name] = self.val(fsp, depth - 1, tuple(f.schema))
+        if kind == "typeddict":
+            if c.flag("extra"):
+                vals["zz"] = c.pick([1, "x", None, [2]], "xv")  # undeclared key; concrete (Any position)
+            self.constrain(cs, vals, "obj")
+            return vals
+        return self.prog.cls(s.opt("name"))(**vals)
